@@ -237,8 +237,14 @@ fn formula_hash(v: &V) -> i128 {
         V::Fin(s) => {
             let p = mersenne();
             let pm2 = &p - BigUint::from(2u8);
-            let nn = s.n.magnitude() % &p;
-            let dd = &s.d % &p;
+            // the value, not the spelling: cancel a factor 2^127−1 shared by n and d
+            let (mut n, mut d) = (s.n.magnitude().clone(), s.d.clone());
+            while !n.is_zero() && (&n % &p).is_zero() && (&d % &p).is_zero() {
+                n /= &p;
+                d /= &p;
+            }
+            let nn = n % &p;
+            let dd = d % &p;
             if dd.is_zero() {
                 return 0;
             }
@@ -714,8 +720,113 @@ fn is_neg_v(v: &V) -> bool {
 /// a failing observation: known finding if it matches the predicate of an active entry, else violation
 fn report(out: &mut Out, ctx: &Ctx, site: &Site, got: &str, want: &str) {
     let detail = || format!("{}: {}({}) vs {}({}): got {}, want {}", site.tr, site.ra.name(), site.va.show(), site.rb.name(), site.vb.show(), got, want);
-    let _ = (ctx, is_zero_v(site.xa), is_neg_v(site.xb));
-    out.fail(detail());
+    match known_class(site, got) {
+        Some(id) => ctx.known_or_fail(out, id, detail),
+        None => out.fail(detail()),
+    }
+}
+
+/// positive finite and below 2^k
+fn pos_below_pow2(v: &V, k: i64) -> bool {
+    match v {
+        V::Fin(s) if s.signum() > 0 => cmp_abs(s, &Sci::new(BigInt::one(), k, 2)) == Some(Ordering::Less),
+        _ => false,
+    }
+}
+
+/// Predicates of the known findings: call site (trait + type families) and input class, as narrow
+/// as the root cause.  Anything outside stays a violation.
+fn known_class(site: &Site, got: &str) -> Option<&'static str> {
+    let (fa, fb) = (site.ra.fam(), site.rb.fam());
+    // (float-family side, other side) of a mixed pair, whichever the direction
+    let mixed = |p: fn(&Rep) -> bool, q: fn(&Rep) -> bool| -> Option<(&V, &V)> {
+        if p(site.ra) && q(site.rb) {
+            Some((site.xa, site.xb))
+        } else if p(site.rb) && q(site.ra) {
+            Some((site.xb, site.xa))
+        } else {
+            None
+        }
+    };
+    let is_fprim = |r: &Rep| r.fam() == Fam::FPrim;
+    let is_min = |r: &Rep| match r {
+        Rep::I8(x) => *x == i8::MIN,
+        Rep::I16(x) => *x == i16::MIN,
+        Rep::I32(x) => *x == i32::MIN,
+        Rep::I64(x) => *x == i64::MIN,
+        Rep::I128(x) => *x == i128::MIN,
+        Rep::Is(x) => *x == isize::MIN,
+        _ => false,
+    };
+    match site.tr {
+        // base/src/sign.rs impl_signed_for_int: `self.abs()` overflows for the minimum value (panic with
+        // overflow checks, otherwise MIN stays negative and compares below everything)
+        "abs_cmp" | "abs_eq" if fa == Fam::IPrim && fb == Fam::IPrim => {
+            if is_min(site.ra) || is_min(site.rb) {
+                return Some("C14/prim-abs-cmp-min");
+            }
+            None
+        }
+        "abs_cmp" => {
+            // float/src/cmp.rs repr_cmp_ubig / repr_cmp_ibig, ABS = true: the exact step compares the
+            // *signed* significand / integer, so the result is wrong only if an operand is negative
+            if let Some((f, i)) = mixed(Rep::is_float_family, Rep::is_big_int) {
+                if matches!(f, V::Fin(_)) && (is_neg_v(f) || is_neg_v(i)) && !got.starts_with("panic") {
+                    return Some("C14/float-abs-cmp-int-signed");
+                }
+            }
+            None
+        }
+        "num_ord" if !got.starts_with("panic") => {
+            // integer/src/third_party/num_order.rs impl_num_ord_ibig_with_float step 2:
+            // `-sign * Less` for an infinity of the same sign as the integer (zero counts as positive)
+            if let Some((i, f)) = mixed(|r| r.fam() == Fam::IBig, is_fprim) {
+                if let V::Inf(neg) = f {
+                    if is_neg_v(i) == *neg {
+                        return Some("C14/ibig-vs-inf-float-same-sign");
+                    }
+                }
+            }
+            // zero versus a small positive primitive float: each crate's float comparison treats a
+            // float below 1/2 (below 1/4 in dashu-ratio) as smaller than "any" left operand
+            if let Some((z, f)) = mixed(Rep::is_big_int, is_fprim) {
+                if is_zero_v(z) && pos_below_pow2(f, -1) {
+                    return Some("C14/int-zero-vs-small-float");
+                }
+            }
+            if let Some((z, f)) = mixed(Rep::is_float_family, is_fprim) {
+                if is_zero_v(z) && pos_below_pow2(f, -1) {
+                    return Some("C14/float-zero-vs-small-float");
+                }
+            }
+            if let Some((z, f)) = mixed(Rep::is_ratio_family, is_fprim) {
+                if is_zero_v(z) && pos_below_pow2(f, -2) {
+                    return Some("C14/ratio-zero-vs-small-float");
+                }
+            }
+            None
+        }
+        "num_hash" => {
+            // rational/src/third_party/num_order.rs: a Relaxed whose numerator and denominator share
+            // the factor 2^127−1 is hashed as "denominator ≡ 0" although its value is an ordinary number
+            let p = mersenne();
+            let shared = |r: &Rep, v: &Val| {
+                r.fam() == Fam::Relaxed && v.kind == K_FIN && !v.n.is_zero() && (v.n.big() * v.k.big() % &p).is_zero() && (v.d.big() * v.k.big() % &p).is_zero()
+            };
+            // the reduced denominator must not be ≡ 0 itself (then 0 is the agreed hash)
+            let genuine = |v: &Val| {
+                let q = BigRational::new(BigInt::from(v.n.big()), BigInt::from(v.d.big()));
+                !(q.denom().magnitude() % &p).is_zero()
+            };
+            // site.ra is the representation that deviates from the formula hash
+            if shared(site.ra, site.va) && genuine(site.va) {
+                return Some("C14/relaxed-hash-common-factor-m127");
+            }
+            let _ = (fa, fb);
+            None
+        }
+        _ => None,
+    }
 }
 
 fn run(c: &Case, ctx: &Ctx) -> Out {
@@ -759,7 +870,7 @@ fn run(c: &Case, ctx: &Ctx) -> Out {
 
     // ---- pair selection: all pairs when few, otherwise a case-determined sample
     let total = ra.len() * rb.len();
-    let maxp = if ctx.thorough() { 96 } else { 64 };
+    let maxp = if is_huge { 10 } else if ctx.thorough() { 96 } else { 64 };
     let picks: Vec<usize> = if total <= maxp { (0..total).collect() } else { (0..maxp).map(|i| (i * 7919 + c.salt as usize) % total).collect() };
     let t0 = cpu_s();
     let mut cross = false;
@@ -1055,7 +1166,9 @@ fn gen_val(class: u8, size: u8, r: &mut SplitMix) -> Val {
             v
         }
         CL_HUGE => {
-            let (base, e0): (u32, i64) = [(10, 1_000_000), (2, 10_000_000), (16, 2_500_000), (3, 2_000_000), (10, 400_000), (2, 1_000_000)][r.below(6) as usize];
+            // 10^±10^6 and 2^±10^7 as the design asks; cheaper exponents more often (every probe of a
+            // near pair makes dashu materialise B^|e|)
+            let (base, e0): (u32, i64) = [(10, 1_000_000), (2, 10_000_000), (2, 10_000_000), (16, 2_500_000), (3, 600_000), (10, 100_000), (10, 100_000), (10, 30_000), (3, 60_000), (2, 1_000_000), (16, 300_000), (10, 300_000)][r.below(12) as usize];
             let e = (e0 + r.below(200) as i64 - 100) * if r.below(2) == 0 { 1 } else { -1 };
             let n = match r.below(6) {
                 0 => one.clone(),
@@ -1207,8 +1320,9 @@ fn relate(a: &Val, rel: u8, r: &mut SplitMix, c: Val) -> (Val, u8) {
             if !la.is_finite() {
                 return (c, 7);
             }
-            let bases = [2u32, 10, 16, 3];
-            let nb = bases[r.below(4) as usize];
+            // beyond ~4·10^6 bits only the power-of-two bases (a shift) are affordable for dashu
+            let bases = [2u32, 16, 10, 3];
+            let nb = bases[r.below(if la.abs() > 4.0e6 { 2 } else { 4 }) as usize];
             let m = match r.below(3) {
                 0 => one.clone(),
                 1 => BigUint::from(r.next() | 1),
